@@ -27,7 +27,8 @@ import (
 
 func c02Gen(t *rapid.T) qScenario {
 	sc := qScenario{MaxTries: rapid.IntRange(1, 3).Draw(t, "max_tries"), Partial: rapid.Bool().Draw(t, "partial"),
-		Bounce: rapid.SampledFrom([]string{"ok", "ok", "none"}).Draw(t, "bounce")}
+		Bounce:           rapid.SampledFrom([]string{"ok", "ok", "none"}).Draw(t, "bounce"),
+		RecoverTempFails: rapid.SampledFrom([]int{0, 0, 1, 2}).Draw(t, "recover_temp_fails")}
 	nm := rapid.IntRange(1, 3).Draw(t, "nmsgs")
 	tmp := &verifx.ErrNode{Kind: "smtp", Code: 451, Ench: [3]int{4, 0, 0}, Msg: "later"}
 	perm := &verifx.ErrNode{Kind: "smtp", Code: 550, Ench: [3]int{5, 1, 1}, Msg: "no"}
@@ -109,9 +110,9 @@ type c02Pre struct {
 	aborted       map[string]bool            // message id -> client Abort returned
 	delivered     map[string]map[string]bool // msg -> rcpt committed downstream
 	reported      map[string]map[string]bool
-	deliveredUpTo map[string]map[int][]string // msg -> attempt -> rcpts delivered in that attempt
-	startedMax    map[string]int              // msg -> highest attempt number started
-	started       map[string]map[int]bool     // msg -> attempts started before the crash
+	deliveredUpTo map[string]map[int][]string        // msg -> attempt -> rcpts delivered in that attempt
+	startedMax    map[string]int                     // msg -> highest attempt number started
+	started       map[string]map[int]bool            // msg -> attempts started before the crash
 	offered       map[string]map[int]map[string]bool // msg -> attempt -> recipients offered in it
 }
 
@@ -254,6 +255,37 @@ func c02Invariants(sc qScenario, pre *c02Pre, imageDir string, imageMeta map[str
 			}
 			if !ok || !in {
 				vs = append(vs, ev.Vf("I3:not-a-pending-recipient", "%s: recovery offered %s of message %s to the target, pending recipients stored in the image: %v (meta present: %v)", where, e.Rcpt, e.Msg, meta.To, ok))
+			}
+		}
+	}
+	// I5: inside the recovery run a recipient the target committed is not offered again by a later attempt
+	// of the same run (the meta-data update between the attempts must work on the recovered spool as well)
+	deliveredIn := map[string]map[string]int{}
+	for _, a := range h.Attempts {
+		if deliveredIn[a.Msg] == nil {
+			deliveredIn[a.Msg] = map[string]int{}
+		}
+		for _, e := range h.Events {
+			if e.Op == "rcpt" && e.Msg == a.Msg && e.Attempt == a.N {
+				if n, ok := deliveredIn[a.Msg][e.Rcpt]; ok && n < a.N {
+					vs = append(vs, ev.Vf("I5:recovery-resends-delivered-recipient", "%s: after the restart attempt %d delivered %s of %s and attempt %d offered it again", where, n, e.Rcpt, a.Msg, a.N))
+				}
+			}
+		}
+		if a.Committed {
+			for _, r := range a.Accepted {
+				failed := false
+				for _, e := range h.Events {
+					if e.Op == "status" && e.Msg == a.Msg && e.Attempt == a.N && e.Rcpt == r && e.Err != "" {
+						failed = true
+					}
+				}
+				if failed {
+					continue
+				}
+				if _, ok := deliveredIn[a.Msg][r]; !ok {
+					deliveredIn[a.Msg][r] = a.N
+				}
 			}
 		}
 	}
@@ -548,7 +580,9 @@ func TestVerifC02(t *testing.T) {
 	}
 	ev.Run(t, r, ev.Spec[c02Case]{Name: "scenarios", N: n, Gen: func(t *rapid.T) c02Case { return c02Case{Scenario: c02Gen(t), Depth: depth} },
 		Run: func(c c02Case) []ev.V { return c02Explore(c) },
-		Info: func(c c02Case) ev.Info { return ev.Info{Nontrivial: true, Classes: []string{fmt.Sprintf("msgs=%d", len(c.Scenario.Msgs))}} }})
+		Info: func(c c02Case) ev.Info {
+			return ev.Info{Nontrivial: true, Classes: []string{fmt.Sprintf("msgs=%d", len(c.Scenario.Msgs))}}
+		}})
 	if !r.Thorough() && r.Shard == 0 {
 		// one scenario at depth 2 also in the quick tier
 		ev.Run(t, r, ev.Spec[c02Case]{Name: "depth2", N: 1, Gen: func(t *rapid.T) c02Case { return c02Case{Scenario: c02Gen(t), Depth: 2} },
